@@ -21,6 +21,7 @@ CONFIG = dict(
           "path, Invalid if reversed; slot; callbacks up to the first zero; security cookie; SEHandlerCount Va-sized handler entries "
           "(C15_tls_*, C15_lc_*, C15_absent_is_null). No modelled function faults (C15_no_fault). "
           "F17 (inverted comparator) and F8 (u32 add overflow) are refuted for the code as it stood (C15_F17_..., C15_F8_...) and repaired. "
+          "WHICH bytes are decoded HOW, over the bytes of the view at the literal offsets of the PE/COFF specification and without the model decoder (Spec/DirShape.v): security = the Size bytes at file offset VirtualAddress with dwLength / wRevision / wCertificateType = the dword at 0 and the words at 4 and 6 and the certificate = the Size-8 bytes from 8 (C15_security_fields); CodeView NB10 = signature bytes, Offset at 4, TimeDateStamp at 8, Age at 12, path from 16 and RSDS = signature bytes, the 16 GUID bytes at 4, Age at 20, path from 24, MISC = DataType / Length / Unicode at 0 / 4 / 8, POGO and raw payloads, with every error case (C15_entry_fields, C15_dir_entry_shape, C15_dir_entry_errors); UNWIND_INFO bit fields, unwind_info and function bytes in closed form (C15_unwind_fields, C15_unwind_info_closed, C15_function_bytes_closed) - the field decoding that used to live in the OCaml driver is now extracted Coq (Model/DirsFields.v) and compared with the implementation. "
           "Tied to the repository by the correspondence check on generated PE32 / PE32+ images, file and mapped views.",
     note="Trusted: Coq kernel, extraction and glue; Spec/DirSpec.v as the reading of the property text; std's slice::binary_search_by is characterised by "
          "its documented contract only (Spec/DirSpec.v bsearch_contract: on a slice ordered by the closure it returns Ok(i) with f(a[i]) = Equal, or Err(k) with "
@@ -32,7 +33,7 @@ CONFIG = dict(
     bin="dirs", driver="dirs_driver", model_ml="dirs_model", driver_includes=["image.ml"], extract=["Dirs"], shrink_fields=["q"],
     quick_cases=2400, thorough_cases=120000, case_seconds=5,
     correspondence="Model/Dirs.v {exception_try_from, exception_functions, check_sorted, index_of, lookup_function_entry, function_bytes, unwind_info + accessors, "
-                   "security_try_from, certificate_type, certificate_data, debug_try_from, debug_dirs, dir_data, dir_entry, pdb_file_name, pgo_iter, tls_try_from, "
+                   "security_try_from, certificate_type, certificate_data, Model/DirsFields.v {sec_length, sec_revision, entry_fields}, debug_try_from, debug_dirs, dir_data, dir_entry, pdb_file_name, pgo_iter, tls_try_from, "
                    "tls_raw_data, tls_slot, tls_callbacks, load_config_try_from, lc_security_cookie, lc_se_handler_table} vs pelite pe32/pe64 "
                    "Pe::{exception, security, debug, tls, load_config} and Exception::{image, check_sorted, functions, index_of, lookup_function_entry}, "
                    "Function::{image, bytes, unwind_info}, UnwindInfo::*, Security::{image, certificate_type, certificate_data}, Debug::{image, iter, pdb_file_name}, "
@@ -50,7 +51,7 @@ CONFIG = dict(
          "equality), the extracted Spec functions on the implementation's tokens, and - in the well-formed stream - the implementation's decoded values against the "
          "generator's own record of what it wrote (x= field: counts, Begin/End/Unwind, GUID / timestamp / age / path length, POGO records, template length, slot and "
          "cookie values, callback and handler counts, certificate type and length). Non-trivial: at least one query was evaluated by the oracle.",
-    trusted_base=["Spec/DirSpec.v as the reading of the property text",
+    trusted_base=["Spec/DirSpec.v as the reading of the property text", "Spec/DirShape.v + Spec/LeBytes.v (literal field offsets of WIN_CERTIFICATE, CodeView NB10 / RSDS, IMAGE_DEBUG_MISC, UNWIND_INFO)",
                   "the documented contract of slice::binary_search_by (Spec/DirSpec.v bsearch_contract); std's own loop is not modelled"],
     assumptions=["Va is 32 or 64 bits wide, usize is 64 bits",
                  "the buffer is 4-aligned (validated by PeFile/PeView::from_bytes) - needed for the debug assertion in Security::new",
